@@ -371,6 +371,15 @@ pub fn check_cmp(mv: &MV, p: &Prim) -> CaseResult {
                         format!("{} compared with {:?} ({}) gives [v==p, p==v, &v==p, &mut v==p] = {:?}, expected all {} (from the accessor)", short(mv), p, $name, got, e),
                     ));
                 }
+                // `!=` is the negation of `==` in every operand form
+                #[allow(clippy::nonminimal_bool)]
+                let ne = [v != p, p != v, &v != p, &mut vm != p];
+                if ne != [!e, !e, !e, !e] {
+                    return Err((
+                        format!("op=ne-{} value={}", $name, mv.kind()),
+                        format!("{} != {:?} ({}) gives [v!=p, p!=v, &v!=p, &mut v!=p] = {:?}, expected all {}", short(mv), p, $name, ne, !e),
+                    ));
+                }
             }};
         }
         let cls: &'static str;
@@ -403,6 +412,13 @@ pub fn check_cmp(mv: &MV, p: &Prim) -> CaseResult {
                 let got = [
                     v == *sref, *sref == v, v == sref, sref == v, v == *s, *s == v,
                 ];
+                let ne = [v != *sref, *sref != v, v != sref, sref != v, v != *s, *s != v];
+                if ne.iter().any(|g| *g == e) {
+                    return Err((
+                        format!("op=ne-str value={}", mv.kind()),
+                        format!("{} != string {:?} gives {:?}, expected all {}", short(mv), s, ne, !e),
+                    ));
+                }
                 if got.iter().any(|g| *g != e) {
                     return Err((
                         format!("op=cmp-str value={}", mv.kind()),
